@@ -109,6 +109,9 @@ def check_private_roundtrip(ctx, alg, kw, key, fmt, opts, pw, comment):
             ctx.failing_input(f'{alg} private key exported as {fmt} with comment {comment!r} imports with comment '
                               f'{k2.get_comment_bytes()!r}', rp)
             return 'fail'
+    if pw is not None and opts.get('pbe_version') == 2:
+        ctx.sample({'sweep_private_case': {'key': alg, 'format': fmt, 'options': opts, 'passphrase': repr(pw), 'result': 'export -> import equal; '
+                                           'wrong passphrases and None rejected', 'exported_prefix': data[:48].hex()}}, limit=5)
     if pw is not None:
         # the same passphrase given as the other type (str <-> its UTF-8 bytes) is the same passphrase
         other = None
@@ -155,7 +158,8 @@ def check_public_roundtrip(ctx, alg, kw, key, fmt, comment, hard=False):
         return 'refused'
     finally:
         key.set_comment(None)
-    rp = _rp('public_roundtrip', alg, kw, format=fmt, comment=_b(comment), exported=data.hex() if len(data) < 6000 else None)
+    rp = _rp('public_comment_hard' if hard else 'public_roundtrip', alg, kw, format=fmt, comment=_b(comment),
+             exported=data.hex() if len(data) < 6000 else None)
     try:
         k2 = asyncssh.import_public_key(data)
         lst = asyncssh.public_key._decode_public_list(data) if hasattr(asyncssh.public_key, '_decode_public_list') else [k2]
@@ -169,7 +173,7 @@ def check_public_roundtrip(ctx, alg, kw, key, fmt, comment, hard=False):
         if k2.get_comment_bytes() != (comment or None) or len(lst) != 1:
             what = (f'{alg} public key exported as {fmt} with comment {comment!r} reads back with comment '
                     f'{k2.get_comment_bytes()!r}; the exported text holds {len(lst)} key(s)')
-            ctx.failing_input(what, dict(rp, kind='public_comment_hard' if hard else 'public_roundtrip', keys_in_file=len(lst)))
+            ctx.failing_input(what, dict(rp, keys_in_file=len(lst)))
             return 'fail'
     return 'ok'
 
@@ -439,6 +443,8 @@ def check_ssh_keygen(ctx, pool, tmp, rng, thorough):
                                   _rp('keygen_read_private', alg, kw, format=fmt, opts=opts, passphrase=pw, exported=data.hex()))
                 continue
             ctx.count(f'sweep.keygen.read_private.ok.{fmt}')
+            ctx.sample({'sweep_interop_case': {'key': alg, 'format': fmt, 'options': opts, 'passphrase': pw,
+                                               'ssh-keygen -y': out[:80].decode('latin-1')}}, limit=6)
             got = _pubfields(out)
             if got != want:
                 ctx.failing_input(f'ssh-keygen -y derives a different public key from the {alg} private key exported as {fmt} {opts}',
@@ -626,6 +632,75 @@ def check_openssl_cli(ctx, pool, tmp):
                                           data=data.hex()))
 
 
+def check_certificates(ctx, pool, tmp):
+    """OpenSSH certificates: export -> import in both text formats, read by ssh-keygen -L, and certificates signed by
+    ssh-keygen read by asyncssh."""
+    import asyncssh
+    ca = pool[0][2]
+    for alg, kw, key in pool:
+        try:
+            cert = ca.generate_user_certificate(key, 'key id %s' % alg, principals=['alice', 'bob'], serial=77)
+        except Exception as e:                 # noqa  (no certificate algorithm for this key type)
+            ctx.count('sweep.cert.generate_refused.' + type(e).__name__)
+            continue
+        for fmt in ('openssh', 'rfc4716'):
+            for cm in (None, b'cert comment'):
+                cert.set_comment(cm)
+                data = cert.export_certificate(fmt)
+                ctx.note_case(('cert', alg, repr(kw), fmt, cm), nontrivial=True)
+                rp = _rp('certificate_roundtrip', alg, kw, format=fmt, comment=_b(cm), exported=data.hex())
+                try:
+                    c2 = asyncssh.import_certificate(data)
+                    ok = (c2.public_data == cert.public_data and c2.principals == cert.principals and
+                          c2.key.public_data == key.public_data and c2.get_comment_bytes() == cm)
+                except Exception as e:         # noqa
+                    ctx.failing_input(f'{alg} certificate exported as {fmt} cannot be imported: {type(e).__name__}: {e}', rp)
+                    continue
+                ctx.count('sweep.cert.roundtrip.' + ('ok' if ok else 'fail'))
+                if not ok:
+                    ctx.failing_input(f'{alg} certificate exported as {fmt} (comment {cm!r}) imports differently', rp)
+        cert.set_comment(None)
+        if SSH_KEYGEN and alg in KEYGEN_TYPES:
+            path = os.path.join(tmp, 'cert-%s.pub' % alg)
+            _write(path, cert.export_certificate('openssh'), 0o644)
+            rc, out, err = _run(['-L', '-f', path])
+            ctx.note_case(('keygen-read-cert', alg, repr(kw)), nontrivial=True)
+            ok = rc == 0 and b'key id ' + alg.encode() in out and b'Serial: 77' in out and b'alice' in out and b'bob' in out and \
+                key.get_fingerprint('sha256').encode() in out
+            ctx.count('sweep.cert.keygen_read.' + ('ok' if ok else 'fail'))
+            if not ok:
+                ctx.failing_input(f'ssh-keygen -L reads the {alg} certificate written by asyncssh differently (rc {rc}): '
+                                  f'{(out + err)[:300]!r}', _rp('keygen_read_certificate', alg, kw, format='openssh'))
+    if not SSH_KEYGEN:
+        return
+    # certificates signed by ssh-keygen
+    for alg, args in KEYGEN_TYPES.items():
+        capath = os.path.join(tmp, 'certca-' + alg)
+        upath = os.path.join(tmp, 'certuser-' + alg)
+        if _run(args + ['-N', '', '-q', '-f', capath])[0] != 0 or _run(args + ['-N', '', '-q', '-C', 'u c', '-f', upath])[0] != 0:
+            continue
+        rc, out, err = _run(['-s', capath, '-I', 'openssh id', '-n', 'carol,dave', '-z', '4242', '-q', upath + '.pub'])
+        if rc != 0:
+            ctx.count('sweep.cert.keygen_sign.unsupported_by_openssh')
+            continue
+        data = open(upath + '-cert.pub', 'rb').read()
+        ctx.note_case(('keygen-write-cert', alg), nontrivial=True)
+        try:
+            c = asyncssh.import_certificate(data)
+            upub = asyncssh.import_public_key(open(upath + '.pub', 'rb').read())
+            capub = asyncssh.import_public_key(open(capath + '.pub', 'rb').read())
+            ok = (list(c.principals) == ['carol', 'dave'] and c.key.public_data == upub.public_data and
+                  c.signing_key.public_data == capub.public_data and c.get_comment_bytes() == b'u c')
+            what = 'fields differ'
+        except Exception as e:                 # noqa
+            ok = False
+            what = f'{type(e).__name__}: {e}'
+        ctx.count('sweep.cert.keygen_write.' + ('ok' if ok else 'fail'))
+        if not ok:
+            ctx.failing_input(f'asyncssh reads the {alg} certificate signed by ssh-keygen differently: {what}',
+                              _rp('keygen_write_certificate', alg, {}, format='openssh', data=data.hex()))
+
+
 # ---------------------------------------------------------------------------------------------
 
 def run_sweep(ctx, pool):
@@ -669,10 +744,22 @@ def run_sweep(ctx, pool):
                         r = check_public_roundtrip(ctx, alg, kw, key, fmt, cm, hard=True)
                         ctx.count(f'sweep.public_hard_comment.{fmt}.{r}')
                         ctx.note_case(('public', alg, repr(kw), fmt, cm), nontrivial=True)
-            check_pyca(ctx, alg, kw, key, rng, thorough)
-        check_key_lists(ctx, pool, tmp, rng)
-        check_ssh_keygen(ctx, pool, tmp, rng, thorough)
-        check_openssl_cli(ctx, pool, tmp)
+            try:
+                check_pyca(ctx, alg, kw, key, rng, thorough)
+            except Exception as e:             # noqa
+                ctx.failing_input(f'check_pyca {alg}: {type(e).__name__}: {e}', {'kind': 'sweep_exception', 'alg': alg, 'keygen': kw,
+                                                                                 'format': 'pyca', 'exception': type(e).__name__})
+        for fn, args in ((check_key_lists, (ctx, pool, tmp, rng)), (check_ssh_keygen, (ctx, pool, tmp, rng, thorough)),
+                         (check_openssl_cli, (ctx, pool, tmp)), (check_certificates, (ctx, pool, tmp))):
+            try:
+                fn(*args)
+            except Exception as e:             # noqa  an import/export raised where the oracle expected a result
+                import traceback
+                tb = traceback.extract_tb(e.__traceback__)
+                inside = [f'{os.path.basename(f.filename)}:{f.lineno}' for f in tb if 'asyncssh' in f.filename][-2:]
+                ctx.failing_input(f'{fn.__name__}: {type(e).__name__}: {e} (raised at {inside})',
+                                  {'kind': {'check_key_lists': 'private_list'}.get(fn.__name__, 'sweep_exception'),
+                                   'format': 'any', 'exception': type(e).__name__, 'where': inside})
         if n_ok < 50:
             ctx.broke('vacuity:sweep', f'only {n_ok} private export/import cases succeeded')
     finally:
